@@ -567,6 +567,58 @@ def cancelInv (inv : String → Option String) : Expr → Expr
   | .unary op (.unary op' a) => if inv op = some op' then a else .unary op (.unary op' a)
   | e => e
 
+/-! ## call histories on one program object
+
+  `OpProgram.__call__` builds its environment in a local (`env = list(self.constants)`), so the object is the
+  same before and after every call, whether it returns or raises.  `callSeq` threads the object through a
+  sequence of calls.  `SharedProg`/`callShared` is the variant of seeded defect C18_5: one environment list
+  kept on the object, extended by each call and truncated back to the constants only on normal return. -/
+
+/-- One call: the new state of the object and the outcome. -/
+def callStep {V : Type} (I : Interp V) (p : Prog) (kw : Kw V) : Prog × Except Err V := (p, run I p kw)
+
+def callSeq {V : Type} (I : Interp V) : Prog → List (Kw V) → Prog × List (Except Err V)
+  | p, [] => (p, [])
+  | p, kw :: rest =>
+    let (p1, r) := callStep I p kw
+    let (p2, rs) := callSeq I p1 rest
+    (p2, r :: rs)
+
+structure SharedProg (V : Type) where
+  prog : Prog
+  env : List V                                -- `self._env`
+
+/-- `readInputs` appending to the shared list: returns the list as it stands when the loop stops. -/
+def readInputsShared {V : Type} : List String → Kw V → List V → List V × Except Err (Kw V)
+  | [], kw, env => (env, .ok kw)
+  | n :: ns, kw, env =>
+    match kwGet kw n with
+    | none => (env, .error (.missing n))
+    | some v => readInputsShared ns (kwErase kw n) (env ++ [v])
+
+def runOpsShared {V : Type} (I : Interp V) : List (OpTag × List Nat) → List V → List V × Except Err Unit
+  | [], env => (env, .ok ())
+  | (tag, ids) :: rest, env =>
+    match getArgs env ids with
+    | .error e => (env, .error e)
+    | .ok args =>
+      match applyOp I tag args with
+      | .error e => (env, .error e)
+      | .ok v => runOpsShared I rest (env ++ [v])
+
+def callShared {V : Type} (I : Interp V) (s : SharedProg V) (kw : Kw V) : SharedProg V × Except Err V :=
+  match readInputsShared s.prog.inputs kw s.env with
+  | (env, .error e) => ({ s with env := env }, .error e)
+  | (env, .ok rest) =>
+    if rest ≠ [] then ({ s with env := env }, .error (.unrecognized (kwKeys rest)))
+    else
+      match runOpsShared I s.prog.operations env with
+      | (env', .error e) => ({ s with env := env' }, .error e)
+      | (env', .ok ()) =>
+        match env'.getLast? with
+        | none => ({ s with env := env' }, .error .emptyEnv)
+        | some v => ({ s with env := env'.take s.prog.constants.length }, .ok v)   -- `del env[len(constants):]`
+
 /-! ## printing of parametrised ops (`program._print_op`, funsor/ops/program.py:101-108)
 
   An op instance is its class plus the current value of every parameter, in signature order
